@@ -72,9 +72,16 @@ def write_file(rng, p, size=None):
     set_mtime(rng, p)
 
 
+_mtime_serial = [0]
+
+
 def set_mtime(rng, p):
     now = time.time()
     t = rng.choice((now, int(now), now - 86400 * 400.5, 1.0, 1234567890.123456, now + 86400 * 30, int(now) + 0.999999, 946684800))
+    # every timestamp handed out is distinct (whole seconds apart, so integral ones stay integral): a rewritten file never has
+    # both the size and the mtime of its predecessor - the one situation the size/mtime quick check cannot see by design
+    _mtime_serial[0] += 1
+    t += 2 * _mtime_serial[0]
     os.utime(p, (t, t), follow_symlinks=False)
 
 
